@@ -8,7 +8,7 @@
     every capacity) is validated by the correspondence runs with restarts over the
     db-backed engine, not proved here (C09, C10, C12 prove the layers separately). *)
 From QV Require Import Common.Prelude Engine.Model Engine.Core Engine.CoreSpec Engine.CoreInvState Engine.CoreRestart Engine.CoreSound Engine.RestartLemmas.
-From QV Require Import Engine.MdlSpec Engine.MdlSound.
+From QV Require Import Engine.MdlSpec Engine.MdlSound Engine.MdlRestart.
 
 Theorem C07_core_restart_persisted : forall s,
   cs_nodes (crestart s) = cs_nodes s /\ cs_bwd (crestart s) = cs_bwd s /\
@@ -60,6 +60,17 @@ Theorem C07_model_restart_is_an_operation : forall p s,
   op_in_scope ORestart /\ step p s ORestart = (restart (set_log s []), mkRes RUnit [] None).
 Proof. intros p s. split; [exact I | reflexivity]. Qed.
 
+(** full model, ANY program (no well-formedness at all), any query kind: an answer that was up to
+    date is served again without running any executor - restarts, other queries and world
+    changes in between are allowed, only input sessions are excluded *)
+Theorem C07_model_no_reexecution : forall p ops i j n rj z,
+  (j < i)%nat -> nth_error ops j = Some (OQuery n) -> nth_error ops i = Some (OQuery n) ->
+  nth_error (run_history p init_state ops) j = Some rj -> r_out rj = RValue z ->
+  no_session_between ops j i ->
+  exists ri, nth_error (run_history p init_state ops) i = Some ri /\ r_out ri = RValue z /\ r_execs ri = [].
+Proof. exact MdlRestart.model_no_reexecution. Qed.
+Check mexx_no_reexecution.
+
 Check ex_restart.
 
 Print Assumptions C07_core_restart_persisted.
@@ -70,3 +81,4 @@ Print Assumptions C07_core_no_reexecution.
 Print Assumptions C07_model_restart_persisted.
 Print Assumptions C07_model_sound_across_restarts.
 Print Assumptions C07_model_restart_is_an_operation.
+Print Assumptions C07_model_no_reexecution.
